@@ -1262,6 +1262,27 @@ func c10CheckFloatParse(c *Ctx, b *c10Batch, lit string) {
 		}
 	}
 	c.HitN("floatparse/routes", int64(len(c10FloatRoutes)))
+	// correspondence with the model of the float unmarshaler (bare and quoted arms)
+	showF := func(bits uint64, err error) string {
+		if err != nil {
+			return "E " + c10ErrClass(err)
+		}
+		return fmt.Sprintf("set %d", bits)
+	}
+	hl := hx(input)
+	for _, x := range []struct {
+		op, line, got string
+	}{
+		{"json.Unmarshal/float64", "num floatv 64 0 0 " + hl, showF(math.Float64bits(f64), e64)},
+		{"json.Unmarshal/float32", "num floatv 32 0 0 " + hl, showF(uint64(math.Float32bits(f32)), e32)},
+	} {
+		x := x
+		b.add(x.line, func(ans string) {
+			if ans != x.got {
+				c.Violate("corr-floatv", x.op, input, map[string]any{"literal": trunc(lit, 200), "impl": x.got, "model": ans})
+			}
+		})
+	}
 	// the Lean specification of correct rounding agrees as well (third implementation)
 	g64 := fmt.Sprintf("%d", math.Float64bits(w64))
 	g32 := fmt.Sprintf("%d", math.Float32bits(w32))
@@ -1510,8 +1531,79 @@ func c10ExactDecimal(x *big.Rat) string {
 	return s
 }
 
+// c10CheckQuotedFloat: arbitrary quoted content into float64/float32 under StringifyNumbers, and bare numbers under
+// the option / strings without it (kind mismatches), against the model.
+func c10CheckQuotedFloat(c *Ctx, b *c10Batch, content string) {
+	for _, bits := range []int{64, 32} {
+		for _, mode := range []struct {
+			st, kind string
+			data     string
+			opts     []json.Options
+		}{
+			{"1", "s", c10Quote(content), []json.Options{json.StringifyNumbers(true)}},
+			{"0", "s", c10Quote(content), nil},
+		} {
+			input := []byte(mode.data)
+			var got string
+			var err error
+			if p := guard(func() {
+				if bits == 64 {
+					var f float64
+					err = json.Unmarshal(input, &f, mode.opts...)
+					got = fmt.Sprintf("set %d", math.Float64bits(f))
+				} else {
+					var f float32
+					err = json.Unmarshal(input, &f, mode.opts...)
+					got = fmt.Sprintf("set %d", math.Float32bits(f))
+				}
+			}); p != nil {
+				c.Panic("json.Unmarshal/float/quoted", input, p, nil)
+				continue
+			}
+			if err != nil {
+				got = "E " + c10ErrClass(err)
+			}
+			op := fmt.Sprintf("json.Unmarshal/float%d/quoted-stringify=%s", bits, mode.st)
+			c.Case(op+" "+content, true)
+			c.Hit("floatparse/quoted-" + mode.st)
+			// predicate: accepted iff stringify and the content is exactly one JSON number that does not overflow
+			wantOK := mode.st == "1" && c10NumLit.MatchString(content)
+			if wantOK {
+				if bits == 64 {
+					wantOK = !math.IsInf(c10Round64(content), 0)
+				} else {
+					wantOK = !math.IsInf(float64(c10Round32(content)), 0)
+				}
+			}
+			if wantOK != (err == nil) {
+				c.Violate("float-quoted-acceptance", op, input, map[string]any{"content": content, "got": got, "want-accepted": wantOK})
+			}
+			b.add(fmt.Sprintf("num floatv %d %s %s %s", bits, mode.st, mode.kind, hx([]byte(content))), func(ans string) {
+				if ans != got {
+					c.Violate("corr-floatv", op, input, map[string]any{"content": content, "impl": got, "model": ans})
+				}
+			})
+		}
+	}
+}
+
 func c10FloatParse(c *Ctx, b *c10Batch) {
 	r := c.Rng
+	for _, s := range []string{"", " 1", "1 ", "+1", "-", "0x1", "1e", "1e+", "1.", ".5", "01", "-01", "NaN", "Infinity", "-Infinity", "null", "1,2", "1e5x", "--1",
+		"1", "-0", "0.5", "1e400", "-1e400", "1e-400", "3.4028236e38", "123456789012345678901234567890", "1E+2", "0e0"} {
+		c10CheckQuotedFloat(c, b, s)
+	}
+	for i := 0; i < c.N(1500, 40000); i++ {
+		s := c10GenNumber(r)
+		if i%3 == 0 { // damage it
+			p := r.IntN(len(s) + 1)
+			s = s[:p] + string(" +-.eE0x"[r.IntN(8)]) + s[p:]
+		}
+		if e := strings.IndexAny(s, "eE"); e >= 0 && len(s)-e > 6 {
+			continue // keep the exact rational affordable: exponents of at most 4 digits
+		}
+		c10CheckQuotedFloat(c, b, s)
+	}
 	for _, s := range c10SpecialFloatLits {
 		c10CheckFloatParse(c, b, s)
 	}
